@@ -25,6 +25,13 @@ def Doomed (c : Cfg) (s : St) (t : Nat) (x : Task) : Prop :=
 
 def Live (c : Cfg) (s : St) (t : Nat) (x : Task) : Prop := x.pc.terminal = false ∧ ¬ Doomed c s t x
 
+/-- `syncing` after a task has left its last step: a coroutine that was suspended inside its scope
+restores the (empty) set it saved -/
+def syncAfterEnd (pc : Pc) (old : List Nat) : List Nat :=
+  match pc with
+  | .awaitCoro _ => []
+  | _ => old
+
 /-- where a generator task stands: it has consumed the futures below `k`, the parameter holds the
 result of the last of them -/
 def Progress (s : St) (t p k : Nat) : Prop :=
@@ -82,6 +89,15 @@ structure Inv (c : Cfg) (s : St) (cur : Option Nat) : Prop where
 
 theorem upd_other {κ α : Type} [DecidableEq κ] (m : κ → α) (k i : κ) (v : α) (h : i ≠ k) : upd m k v i = m i := by
   simp [upd, h]
+
+theorem waitingOn_fst {t : Nat} {pc : Pc} {f : Fid} (h : waitingOn t pc = some f) : f.1 = t := by
+  cases pc <;> simp [waitingOn] at h <;> (subst h; rfl)
+
+theorem upd_upd {κ α : Type} [DecidableEq κ] (m : κ → α) (k : κ) (a b : α) : upd (upd m k a) k b = upd m k b := by
+  funext i; simp [upd]; split <;> rfl
+
+/-- the workhorse: `grind` with the vocabulary unfolded -/
+macro "gr" : tactic => `(tactic| grind (splits := 14) [upd, Live, Doomed, waitsCancelled, Fut.isPending, Progress, waitingOn, Pc.terminal, addName, syncAfterEnd, → waitingOn_fst])
 
 theorem upd_apply {κ α : Type} [DecidableEq κ] (m : κ → α) (k i : κ) (v : α) :
     upd m k v i = if i = k then v else m i := rfl
